@@ -517,9 +517,9 @@ CHECKS["C13"] = {
     "assumptions": SB_ASSUME + ["sequential executor: interleavings of concurrent Add calls are not explored"],
     "groups": [sb_group("order", ["harness/sourcebundle/c13.go"],
                         quick=[{"id": "order-p2a2d0", "entry": "HarnessC13Order", "params": {"nPkg": 2, "nAdds": 2, "nDeps": 0, "symContent": 1}, "map_order": 4, "shards": 2, "_w": 30},
-                               {"id": "order-p2a2d1", "entry": "HarnessC13Order", "params": {"nPkg": 2, "nAdds": 2, "nDeps": 1, "symContent": 0}, "map_order": 2, "shards": 8, "_w": 60},
+                               {"id": "order-p2a2d1", "entry": "HarnessC13Order", "params": {"nPkg": 2, "nAdds": 2, "nDeps": 1, "symContent": 0}, "map_order": 2, "shards": 20, "_w": 50, "shard_depth": 12},
                                {"id": "order-p2a2d0-meta", "entry": "HarnessC13Order", "params": {"nPkg": 2, "nAdds": 2, "nDeps": 0, "symContent": 1, "symMeta": 1}, "map_order": 2, "shards": 4, "_w": 40},
-                               {"id": "order-reg-p2a2d1", "entry": "HarnessC13Order", "params": {"nPkg": 2, "nAdds": 2, "nDeps": 1, "symContent": 0, "regAdds": 1, "leaf": 1, "kinds": 3}, "map_order": 2, "shards": 8, "_w": 60}],
+                               {"id": "order-reg-p2a2d1", "entry": "HarnessC13Order", "params": {"nPkg": 2, "nAdds": 2, "nDeps": 1, "symContent": 0, "regAdds": 1, "leaf": 1, "kinds": 3}, "map_order": 2, "shards": 20, "_w": 40, "shard_depth": 12}],
                         thorough=[{"id": "order-p3a3d0", "entry": "HarnessC13Order", "params": {"nPkg": 3, "nAdds": 3, "nDeps": 0, "symContent": 1}, "map_order": 4, "shards": 16},
                                   {"id": "order-p3a2d1", "entry": "HarnessC13Order", "params": {"nPkg": 3, "nAdds": 2, "nDeps": 1, "symContent": 1}, "map_order": 3, "shards": 16}],
                         reach=["two-builds"], sample_every=100, native_retries=12)],
@@ -574,7 +574,7 @@ CHECKS["C09"] = {
     "bounds": {"quick": "1 package with a registry hop, 2 packages without; one Add, one dependency per location, 3 metadata shapes (none, id+message, message only), 2 offered versions (order and deprecation symbolic)", "thorough": "3 packages"},
     "assumptions": SB_ASSUME + ["A-tar"],
     "groups": [sb_group("reopen", ["harness/sourcebundle/c09.go"],
-                        quick=[{"id": "c09-p1", "entry": "HarnessC09", "params": {"nPkg": 1, "registry": 1}, "_w": 20}, {"id": "c09-p2", "entry": "HarnessC09", "params": {"nPkg": 2, "registry": 0}, "shards": 10, "_w": 60}],
+                        quick=[{"id": "c09-p1", "entry": "HarnessC09", "params": {"nPkg": 1, "registry": 1}, "shards": 6, "_w": 30}, {"id": "c09-p2", "entry": "HarnessC09", "params": {"nPkg": 2, "registry": 0}, "shards": 20, "_w": 40, "shard_depth": 12}],
                         thorough=[{"id": "c09-p2r", "entry": "HarnessC09", "params": {"nPkg": 2, "registry": 1}, "shards": 16}, {"id": "c09-p3", "entry": "HarnessC09", "params": {"nPkg": 3, "registry": 1}, "shards": 16}],
                         reach=["built", "extracted"], sample_every=40)],
 }
@@ -670,8 +670,8 @@ C07_REJECT += ["git::https://@example.com/r.git", "https://@example.com/a.tgz", 
 CHECKS["C07"]["groups"][0]["quick"] += tmpl_items("rej2", "HarnessC07Parse", C07_REJECT[-8:], params={"mustReject": 1})
 CHECKS["C08"]["groups"][0]["quick"] = build_items("quick") + [{"id": "build-f2", "entry": "HarnessBuild", "params": {"nPkg": 1, "nDeps": 1, "nReg": 0, "nAdds": 2, "relative": 1, "finders": 2}, "shards": 6, "_w": 40, "no_hang": True, "max_steps": 3000000}]
 CHECKS["C08"]["groups"][0]["quick"] += [
-    {"id": "build-r2d1a1f2", "entry": "HarnessBuild", "params": {"nPkg": 2, "nDeps": 1, "nReg": 0, "nAdds": 1, "relative": 0, "finders": 2, "leaf": 1}, "shards": 8, "_w": 60, "no_hang": True, "max_steps": 3000000},
-    {"id": "build-g1d1a1f2", "entry": "HarnessBuild", "params": {"nPkg": 1, "nDeps": 1, "nReg": 1, "nAdds": 1, "relative": 0, "finders": 2, "twosets": 1, "kinds": 9}, "shards": 8, "_w": 60, "no_hang": True, "max_steps": 3000000}]
+    {"id": "build-r2d1a1f2", "entry": "HarnessBuild", "params": {"nPkg": 2, "nDeps": 1, "nReg": 0, "nAdds": 1, "relative": 0, "finders": 2, "leaf": 1, "shared": 1}, "shards": 8, "_w": 60, "no_hang": True, "max_steps": 3000000},
+    {"id": "build-g1d1a1f2", "entry": "HarnessBuild", "params": {"nPkg": 1, "nDeps": 1, "nReg": 1, "nAdds": 1, "relative": 0, "finders": 2, "twosets": 1, "kinds": 9, "shared": 1}, "shards": 8, "_w": 60, "no_hang": True, "max_steps": 3000000}]
 CHECKS["C14"]["groups"][0]["quick"] = CHECKS["C08"]["groups"][0]["quick"] + [
     {"id": "build-g1d2a1-faults", "entry": "HarnessBuild", "params": {"nPkg": 1, "nDeps": 2, "nReg": 1, "nAdds": 1, "relative": 0, "twosets": 1, "faults": 1, "kinds": 9}, "shards": 8, "_w": 60, "no_hang": True, "max_steps": 3000000}]
 
@@ -708,3 +708,12 @@ for _pid, _cfg in CHECKS.items():
         _g["thorough"] = list(_g["thorough"]) + [it for it in _g["quick"] if it["id"] not in _ids]
     if "thorough" in _cfg.get("bounds", {}) and "plus every quick-tier item" not in _cfg["bounds"]["thorough"]:
         _cfg["bounds"] = dict(_cfg["bounds"], thorough=_cfg["bounds"]["thorough"] + "; plus every quick-tier item")
+
+# C04: allow-listed targets, one Packer for two destinations
+CHECKS["C04"]["groups"].append(
+    slug_group("allow", ["harness/slug/unpack.go"],
+               quick=[{"id": "allow-reuse-4", "entry": "HarnessC04Allow", "params": {"sLink": 4}, "shards": 8, "_w": 40}],
+               thorough=[{"id": "allow-reuse-5", "entry": "HarnessC04Allow", "params": {"sLink": 5}, "shards": 16}],
+               reach=["second-unpack", "allow-link-created"], sample_every=40))
+CHECKS["C04"]["bounds"]["quick"] += "; allow-list: one Packer with the relative entry '../e' unpacking a link entry into /w/d (5 targets: inside, allow-listed, outside, prefix-sharing sibling, absolute) and then into /w/q/r (target <=4 segments)"
+CHECKS["C04"]["bounds"]["thorough"] += "; allow-list reuse with second target <=5 segments"
